@@ -12,7 +12,12 @@ Definition sd_Inv (e : sd_ep) : Prop :=
   (sd_wsd e = true -> sd_down e = false -> sd_state e = c_shutdownSent) /\
   (sd_wsa e = true -> sd_down e = false -> sd_state e = c_shutdownAckSent) /\
   (sd_state e = c_shutdownSent \/ sd_state e = c_shutdownAckSent -> sd_pend e = 0 /\ sd_infl e = 0) /\
-  (sd_wsc e = true -> sd_scp e = true) /\ 0 <= sd_pend e /\ 0 <= sd_infl e.
+  (sd_wsc e = true -> sd_scp e = true) /\ 0 <= sd_pend e /\ 0 <= sd_infl e /\
+  (* fix 568b58f: nil is returned only with shutdownCompleted set, and that flag is set only with both queues empty,
+     in a state from which no write is accepted any more *)
+  (sd_ret e = SdRetNil -> sd_done e = true) /\
+  (sd_done e = true -> sd_pend e = 0 /\ sd_infl e = 0 /\
+     (sd_state e = c_shutdownSent \/ sd_state e = c_shutdownAckSent \/ sd_state e = c_closed)).
 
 Definition sd_drained_out (e2 : sd_ep) (out : list sd_kind) : Prop :=
   (In SdShutdown out \/ In SdShutdownAck out) -> sd_pend e2 = 0 /\ sd_infl e2 = 0.
@@ -28,7 +33,7 @@ Definition sd_ev_ok (e : sd_ep) (ev : sd_event) : bool :=
 Ltac sd_consts := unfold c_closed, c_established, c_shutdownAckSent, c_shutdownPending, c_shutdownReceived, c_shutdownSent,
   sd_ackIdle, sd_ackImmediate, sd_ackDelay in *.
 
-Ltac sd_red := cbn [sd_state sd_wsd sd_wsa sd_wsc sd_scp sd_t2 sd_pend sd_infl sd_ack sd_ret sd_down
+Ltac sd_red := cbn [sd_state sd_wsd sd_wsa sd_wsc sd_scp sd_done sd_set_done sd_t2 sd_pend sd_infl sd_ack sd_ret sd_down
                     sd_set_state sd_set_wsd sd_set_wsa sd_set_wsc sd_set_scp sd_set_t2 sd_set_pend sd_set_infl sd_set_ack sd_set_ret sd_set_down
                     fst snd app negb andb orb existsb] in *.
 
@@ -84,8 +89,8 @@ Lemma sd_gather_inv e moved rtx :
   sd_drained_out (fst (sd_gather e moved rtx)) (snd (sd_gather e moved rtx)) /\
   sd_gather_state_spec e (fst (sd_gather e moved rtx)).
 Proof.
-  destruct e as [st wsd wsa wsc scp t2 pend infl ack ret down].
-  intros (I1 & I2 & I3 & I4 & I5 & I6) Hor. unfold sd_oracle_ok, sd_sends_data in Hor. sd_red. sd_consts.
+  destruct e as [st wsd wsa wsc scp done t2 pend infl ack ret down].
+  intros (I1 & I2 & I3 & I4 & I5 & I6 & I7 & I8) Hor. unfold sd_oracle_ok, sd_sends_data in Hor. sd_red. sd_consts.
   unfold sd_gather_state_spec, sd_gather, sd_gather_shutdown, sd_gather_sack, sd_gather_data, sd_advance_after_drain, sd_has_data, sd_close.
   sd_consts.
   apply andb_true_iff in Hor; destruct Hor as [Hor Ho4]; apply andb_true_iff in Hor; destruct Hor as [Hor Ho3];
@@ -99,9 +104,9 @@ Qed.
 
 Lemma sd_handle_inv e ev : sd_Inv e -> sd_ev_ok e ev = true -> sd_Inv (fst (sd_handle e ev)).
 Proof.
-  destruct e as [st wsd wsa wsc scp t2 pend infl ack ret down].
-  intros (I1 & I2 & I3 & I4 & I5 & I6) Hev. sd_red. sd_consts.
-  destruct ev as [|n|imm|r|r| | | | | | |]; try destruct r as [a| |];
+  destruct e as [st wsd wsa wsc scp done t2 pend infl ack ret down].
+  intros (I1 & I2 & I3 & I4 & I5 & I6 & I7 & I8) Hev. sd_red. sd_consts.
+  destruct ev as [|n|imm|r|r| | | | | | | | |]; try destruct r as [a| |];
     unfold sd_ev_ok, sd_ackres_ok in Hev; sd_red;
     try (apply andb_true_iff in Hev; destruct Hev as [He1 He2]; apply Z.leb_le in He1, He2);
     try (apply Z.leb_le in Hev);
@@ -236,9 +241,9 @@ Lemma sd_handle_matrix e ev k :
   (sd_state e1 = c_shutdownPending \/ sd_state e1 = c_shutdownReceived -> 0 < sd_pend e1 + sd_infl e1) /\
   sd_pend e1 = sd_pend e.
 Proof.
-  destruct e as [st wsd wsa wsc scp t2 pend infl ack ret down].
-  intros Hk ((I1 & I2 & I3 & I4 & I5 & I6) & B1 & B2 & B3 & B4 & B5 & B6) Hev. sd_red. subst. sd_consts.
-  destruct ev as [|n|imm|r|r| | | | | | |]; try discriminate Hk; try destruct r as [a| |];
+  destruct e as [st wsd wsa wsc scp done t2 pend infl ack ret down].
+  intros Hk ((I1 & I2 & I3 & I4 & I5 & I6 & I7 & I8) & B1 & B2 & B3 & B4 & B5 & B6) Hev. sd_red. subst. sd_consts.
+  destruct ev as [|n|imm|r|r| | | | | | | | |]; try discriminate Hk; try destruct r as [a| |];
     inversion Hk; subst k; clear Hk;
     unfold sd_ev_ok, sd_ackres_ok in Hev; sd_red;
     try (apply andb_true_iff in Hev; destruct Hev as [He1 He2]; apply Z.leb_le in He1, He2);
@@ -294,7 +299,7 @@ Lemma sd_dup_shutdown_reacks e r moved rtx :
   sd_state (fst (fst (sd_step e (SdEvRecvShutdown r) moved rtx))) = c_shutdownAckSent /\
   sd_t2 (fst (fst (sd_step e (SdEvRecvShutdown r) moved rtx))) = true.
 Proof.
-  destruct e as [st wsd wsa wsc scp t2 pend infl ack ret down]. sd_red. intros -> -> -> ->.
+  destruct e as [st wsd wsa wsc scp done t2 pend infl ack ret down]. sd_red. intros -> -> -> ->.
   unfold sd_step, sd_handle, sd_recv_shutdown, sd_retransmit_shutdown_ack. sd_red. sd_consts. cbn [Z.eqb Pos.eqb].
   unfold sd_gather, sd_gather_shutdown. sd_red. cbn [Z.eqb Pos.eqb]. sd_red. repeat split.
 Qed.
@@ -308,7 +313,7 @@ Lemma sd_dup_shutdown_in_received e acked moved rtx :
     (if sd_ack e =? sd_ackImmediate then [SdShutdownAck] else [SdShutdownAck]) /\
   sd_state (fst (fst (sd_step e (SdEvRecvShutdown (SdAckOk acked)) moved rtx))) = c_shutdownAckSent.
 Proof.
-  destruct e as [st wsd wsa wsc scp t2 pend infl ack ret down]. sd_red. intros -> -> -> -> -> -> -> -> ->.
+  destruct e as [st wsd wsa wsc scp done t2 pend infl ack ret down]. sd_red. intros -> -> -> -> -> -> -> -> ->.
   unfold sd_step, sd_handle, sd_recv_shutdown, sd_finish_shutdown_handling, sd_has_data, isShutdownHandleState, entersShutdownReceived.
   sd_red. sd_consts. cbn [Z.eqb Pos.eqb]. sd_red. rewrite Z.sub_diag. cbn [Z.ltb Z.compare]. sd_red.
   unfold sd_gather, sd_gather_shutdown. sd_red. cbn [Z.eqb Pos.eqb]. sd_red.
@@ -337,3 +342,43 @@ Proof.
   cbn [negb]. rewrite orb_true_r. reflexivity.
 Qed.
 
+
+(* ---------------------------------------------------------------- Shutdown's result (after fix 568b58f) *)
+
+(* for ALL histories of an endpoint — deliveries, timers, API calls, and the events that close the association under a
+   blocked Shutdown: transport failure, ABORT from the peer, a concurrent Close — Shutdown's result is nil only if
+   shutdownCompleted is set, and then the pending and the in-flight queue are empty *)
+Lemma sd_nil_means_completed_hist : forall l e, sd_Inv e -> sd_evs_ok e l ->
+  forall e2 out, In (e2, out) (sd_ep_trace e l) -> sd_ret e2 = SdRetNil ->
+    sd_done e2 = true /\ sd_pend e2 = 0 /\ sd_infl e2 = 0.
+Proof.
+  intros l e HI Hok e2 out Hin Hr.
+  destruct (sd_drain_before_shutdown_hist l e HI Hok e2 out Hin) as ((_ & _ & _ & _ & _ & _ & I7 & I8) & _).
+  specialize (I7 Hr). destruct (I8 I7) as (P & Q & _). auto.
+Qed.
+
+(* shutdownCompleted is set by nothing but the end of the sequence: SHUTDOWN ACK received in SHUTDOWN-SENT /
+   SHUTDOWN-ACK-SENT, or SHUTDOWN COMPLETE received in SHUTDOWN-ACK-SENT; gather never touches it *)
+Lemma sd_done_only_by_sequence e ev moved rtx :
+  sd_done (fst (fst (sd_step e ev moved rtx))) = true ->
+  sd_done e = true \/
+  (ev = SdEvRecvShutdownAck /\ sd_down e = false /\ (sd_state e = c_shutdownSent \/ sd_state e = c_shutdownAckSent)) \/
+  (ev = SdEvRecvShutdownComplete /\ sd_down e = false /\ sd_state e = c_shutdownAckSent).
+Proof.
+  destruct e as [st wsd wsa wsc scp done t2 pend infl ack ret down].
+  destruct done; [intros _; left; reflexivity|].
+  assert (G : forall e1, sd_done (fst (sd_gather e1 moved rtx)) = sd_done e1).
+  { intros [st1 wsd1 wsa1 wsc1 scp1 done1 t21 pend1 infl1 ack1 ret1 down1].
+    unfold sd_gather, sd_gather_shutdown, sd_gather_sack, sd_gather_data, sd_advance_after_drain, sd_has_data, sd_close.
+    sd_consts. sd_split; sd_red; reflexivity. }
+  unfold sd_step. destruct (sd_handle _ ev) as [e1 acc] eqn:Eh.
+  specialize (G e1). destruct (sd_gather e1 moved rtx) as [e2 out]. cbn [fst] in *. rewrite G. clear G e2 out.
+  revert Eh. sd_red. sd_consts.
+  destruct ev as [|n|imm|r|r| | | | | | | | |]; try destruct r as [a| |];
+    unfold sd_handle, sd_api_shutdown, sd_write_attempt, sd_recv_data, sd_recv_sack, sd_recv_shutdown, sd_recv_shutdown_ack,
+      sd_recv_shutdown_complete, sd_recv_init, sd_t2_expire, sd_ack_timeout, sd_retransmit_shutdown_ack, sd_finish_shutdown_handling,
+      sd_advance_after_drain, sd_has_data, sd_close, isShutdownHandleState, entersShutdownReceived, isDataReceiveState;
+    sd_consts; sd_red.
+  all: sd_split; sd_red; intros Eh; inversion Eh; subst; sd_red; intros Hd; try discriminate Hd.
+  all: right; sd_consts; first [left; repeat split; auto; fail | right; repeat split; auto].
+Qed.
